@@ -1,5 +1,6 @@
 import PfModel.Lemmas.MapPieces
 import PfModel.Lemmas.MapPiecesSel
+import PfModel.Lemmas.MapPiecesRange
 import PfModel.Props.C01
 /-!
 C06 — Running a map in pieces (fixed_indices, learners) equals running it whole.
@@ -415,7 +416,30 @@ theorem C06_pieces_partial (fs : List MFunc) (shapes : List (String × List Nat)
   rw [C06_part_fixed fs old fixed env f ms sh mk fm hfm]
   exact runMappedSel_ok fs old (selOf fm) env f ms sh mk A hreads
 
+/-! ### round 2: the fuel of `pyRange` is sufficient -/
+
+/-- **`range(a, b, st)` is not cut short by its fuel.** `rangeDist a b st` (the distance still to go: `b - a` for a positive
+    step, `a - b` otherwise) bounds the number of elements; with at least that much fuel any additional fuel yields the same
+    list, i.e. the recursion stopped because Python's loop condition failed. -/
+theorem C06_range_fuel (st : Int) (hst : st ≠ 0) (fuel : Nat) (a b : Int) (k : Nat) (h : rangeDist a b st ≤ fuel) :
+    pyRange (fuel + k) a b st = pyRange fuel a b st := pyRange_stable st hst fuel a b k h
+
+/-- **The fuel `sliceRange` uses (`n + 1`) is enough for every slice**: `slice.indices(n)` clamps both bounds into `[-1, n]`,
+    so no choice of `start`, `stop` and non-zero `step` makes the selection of `_mask_fixed_axes` depend on the fuel. -/
+theorem C06_slice_fuel (n : Nat) (st : Int) (hst : st ≠ 0) (start stop : Option Int) (k : Nat) :
+    pyRange (n + 1 + k) (sliceStart n st start) (sliceStop n st stop) st =
+    pyRange (n + 1) (sliceStart n st start) (sliceStop n st stop) st := sliceRange_fuel n st hst start stop k
+
+/-- the `i`-th element of a range is `a + i * st` -/
+theorem C06_range_elements (st : Int) (fuel : Nat) (a b : Int) (i : Nat) (h : i < (pyRange fuel a b st).length) :
+    (pyRange fuel a b st)[i]? = some (a + i * st) := pyRange_getElem st fuel a b i h
+
 /-! ### non-vacuity -/
+
+/-- the hypotheses of the fuel theorems hold for a concrete descending range with exactly the bounding fuel, and the range is
+    not empty: `range(4, -1, -2) = [4, 2, 0]` with fuel 5 -/
+example : rangeDist 4 (-1) (-2) ≤ 5 ∧ pyRange 5 4 (-1) (-2) = [4, 2, 0] ∧ pyRange (5 + 7) 4 (-1) (-2) = [4, 2, 0] ∧
+    (1 : Nat) < (pyRange 5 4 (-1) (-2)).length := by decide
 
 /-- negative steps and negative integers select what Python selects -/
 example : sliceRange 4 none none (some (-2)) = some [3, 1] ∧ sliceRange 5 (some (-2)) (some (-7)) (some (-1)) = some [3, 2, 1, 0] ∧
